@@ -1257,6 +1257,14 @@ impl<C: Cond> World<C> {
                 ctx::probe("verdict_ambiguous_state_at_dependencies");
                 return None;
             }
+            // The same holds one step downstream: if any member of the group was concurrently given
+            // accesses that the comparator does not order consistently, that member's own manager
+            // status — and with it the validity of every operation it authored in this causal
+            // past, e.g. a demotion of our author — is order-dependent (C31's "downstream" finding).
+            if Self::has_inconsistent_pair(&self.assigned_within(Some(g), |_| true, anc)) {
+                ctx::probe("verdict_ambiguous_downstream_of_order_dependent_member");
+                return None;
+            }
         }
         Some(v)
     }
